@@ -44,3 +44,8 @@
 (declare-fun gnark.fullWitnessDel (Int (Array Int Int) Int Int Int (Array Int Int) Int (Array Int (Array Int Int)) (Array Int Int) Int) Int)
 (declare-fun gnark.proveOut (Int Int Int) Int)
 (declare-fun gnark.verifyOut (Int Int Int) Int)
+
+; ---- HTTP handler vocabulary (C09) ----
+(declare-fun json.proofDocOf (Int) (Array Int Int))
+(declare-fun json.errDoc (Str Str) (Array Int Int))
+(declare-fun errs.message (Int) Str)
